@@ -15,7 +15,8 @@ THEOREMS = ["Pff.Ecc.C13_cut_block_safe", "Pff.Ecc.C13_assemble_prefix_whole", "
             "Pff.Run.C13_run_cut_prefix",
             "Pff.Run.C13_run_output_length",
             "Pff.Run.C13_fields_no_fourth_delim",
-            "Pff.Run.C13_run_no_track_no_write"]
+            "Pff.Run.C13_run_no_track_no_write",
+            "Pff.Run.C13_fields_missing_delim"]
 MODELLED = [("pyFileFixity/header_ecc.py", "main"), ("pyFileFixity/structural_adaptive_ecc.py", "main"),
             ("pyFileFixity/lib/aux_funcs.py", "get_next_entry")]
 MODELLED = sorted(set(MODELLED + fx.WHOLE_RUN_MODELLED))
@@ -37,7 +38,7 @@ RULE = ("trees of 2-4 files with some files damaged within capacity, both tools;
 
 def damaged_tree(tree):
     dmg = dict(tree)
-    for p in sorted(tree)[:2]:
+    for p in [q for q in sorted(tree) if not q.startswith("zz_nul")][:2]:
         if tree[p]:
             c = bytearray(tree[p])
             c[0] ^= 0x41
@@ -81,7 +82,20 @@ def run(oc, tier, seed, model_available, escalate):
         P.algo = rng.choice([3, 4, 3, 1])
         if not P.well_formed():
             continue
+        if it % 2 == 1 and P.algo in (3, 4):
+            # erasure handling on (null bytes are erasures: a block of null bytes is "repaired" from whatever is taken for its parity) and
+            # the slow check: the options under which a mis-parsed cut entry does harm
+            P.erasures, P.only_erasures, P.erasure_symbol = rng.choice([(True, False, 0), (True, False, 0), (False, True, 0), (True, True, 0)])
+            P.no_fast_check = rng.random() < 0.6
         tree = es.gen_tree(rng, P, nfiles=rng.randint(2, 4), maxsize=300)
+        nulfile = None
+        if it % 4 == 3 and P.algo in (3, 4):
+            # directed: a file of null bytes (every symbol an erasure), erasure handling and the slow check on, and EVERY cut offset inside the
+            # metadata of its entry (whatever is then taken for its ecc track must not make the tool write anything)
+            P = eu.Params(tool=P.tool, algo=rng.choice([3, 4]), mbs=rng.choice([20, 20, 50]), size=rng.choice([20, 64]), r1=0.5, r2=0.2, r3=0.1,
+                          ri=rng.choice([0.3, 0.5]), hash=rng.choice(["minimd5", "shortmd5"]), erasures=True, no_fast_check=True)
+            nulfile = "zz_nul.bin"
+            tree = {"a.bin": bytes(rng.randrange(256) for _ in range(30)), nulfile: bytes(rng.choice([1, 2]) * P.k_of_rate(P.r1))}
         if len(tree) < 2:
             continue
         root = os.path.join(d, "root")
@@ -106,6 +120,12 @@ def run(oc, tier, seed, model_available, escalate):
             cuts |= {s, s + 3, s + 10, s + 11, e - 1, e, f["delims"][0] + 2, f["size"][0], f["path_ecc"][0] + 1, f["size_ecc"][0] + 1,
                      f["track"][0], f["track"][0] + 1, f["track"][0] + eu.HASHLEN[P.hash], min(e, f["track"][0] + eu.HASHLEN[P.hash] + 3)}
         cuts |= {rng.randrange(len(data) + 1) for _ in range(10)}
+        forced = set()
+        if nulfile is not None:
+            for (s_, e_), f_ in zip(bounds, fields):
+                if f_["relpath"].decode("latin-1") == nulfile:
+                    forced = set(range(s_, min(e_, f_["track"][0] + 3) + 1))
+            cuts |= forced
         if tier == "thorough" and len(data) < 1500 and full_sweeps < 8:
             cuts |= set(range(len(data) + 1))      # every offset (about 3 min per ecc file): the first 8 small ecc files
             full_sweeps += 1
@@ -113,7 +133,7 @@ def run(oc, tier, seed, model_available, escalate):
             cuts |= {rng.randrange(len(data) + 1) for _ in range(120)}
         cuts = sorted(x for x in cuts if 0 <= x <= len(data))
         if tier == "quick" and len(cuts) > 22:
-            cuts = sorted(rng.sample(cuts, 22))
+            cuts = sorted(set(rng.sample(sorted(set(cuts) - forced), min(22, len(set(cuts) - forced)))) | forced)
         for c in cuts:
             e2 = os.path.join(d, "cut.txt")
             open(e2, "wb").write(data[:c])
